@@ -82,9 +82,16 @@ def name(shape):
     return nm
 
 
+def conf_compaction(seed=0):
+    from . import conformance
+    return conformance.compaction(seed)
+
+
 def jobs(tier, seed):
-    return [Job("coverage[%s]" % name(sh), "h_compact", {"shape": sh, "mode": "coverage", "seed": seed},
-                {"max_paths": 60000}, weight=weight(sh)) for sh in shapes_for(tier)]
+    js = [Job("coverage[%s]" % name(sh), "h_compact", {"shape": sh, "mode": "coverage", "seed": seed},
+              {"max_paths": 60000}, weight=weight(sh)) for sh in shapes_for(tier)]
+    js.append(Job("conformance[compact.json]", "conf_compaction", {}, {"direct": True}, weight=3))
+    return js
 
 
 def replay(cx):
